@@ -2589,6 +2589,77 @@ def register_all(M):
             return (a - b) & ((1 << bits) - 1)
         return simp(bv(a, bits) - bv(b, bits))
 
+    UTYPES = (("usize", 64), ("u64", 64), ("u32", 32), ("u16", 16), ("u8", 8))
+
+    def int_bits(callee):
+        return next((b for t, b in UTYPES if "impl " + t + ">" in callee or callee.strip().startswith(t + "::") or ("::" + t + "::") in callee), 64)
+
+    @reg(*[t + "::saturating_add" for t, _ in UTYPES])
+    def m_saturating_add(it, args, callee):
+        a, b = args[0], args[1]
+        bits = int_bits(callee)
+        top = (1 << bits) - 1
+        if not is_sym(a) and not is_sym(b):
+            return min(a + b, top)
+        x, y = z3.ZeroExt(1, bv(a, bits)), z3.ZeroExt(1, bv(b, bits))
+        return simp(z3.If(z3.UGT(x + y, z3.BitVecVal(top, bits + 1)), z3.BitVecVal(top, bits), bv(a, bits) + bv(b, bits)))
+
+    @reg(*[t + "::saturating_mul" for t, _ in UTYPES])
+    def m_saturating_mul(it, args, callee):
+        a, b = args[0], args[1]
+        bits = int_bits(callee)
+        top = (1 << bits) - 1
+        if not is_sym(a) and not is_sym(b):
+            return min(a * b, top)
+        x, y = z3.ZeroExt(bits, bv(a, bits)), z3.ZeroExt(bits, bv(b, bits))
+        return simp(z3.If(z3.UGT(x * y, z3.BitVecVal(top, 2 * bits)), z3.BitVecVal(top, bits), bv(a, bits) * bv(b, bits)))
+
+    @reg(*[t + "::checked_add" for t, _ in UTYPES])
+    def m_checked_add(it, args, callee):
+        a, b = args[0], args[1]
+        bits = int_bits(callee)
+        top = (1 << bits) - 1
+        if not is_sym(a) and not is_sym(b):
+            return some(a + b) if a + b <= top else none()
+        x, y = z3.ZeroExt(1, bv(a, bits)), z3.ZeroExt(1, bv(b, bits))
+        if it.st.branch(simp(z3.ULE(x + y, z3.BitVecVal(top, bits + 1)))):
+            return some(simp(bv(a, bits) + bv(b, bits)))
+        return none()
+
+    @reg(*[t + "::checked_mul" for t, _ in UTYPES])
+    def m_checked_mul(it, args, callee):
+        a, b = args[0], args[1]
+        bits = int_bits(callee)
+        top = (1 << bits) - 1
+        if not is_sym(a) and not is_sym(b):
+            return some(a * b) if a * b <= top else none()
+        x, y = z3.ZeroExt(bits, bv(a, bits)), z3.ZeroExt(bits, bv(b, bits))
+        if it.st.branch(simp(z3.ULE(x * y, z3.BitVecVal(top, 2 * bits)))):
+            return some(simp(bv(a, bits) * bv(b, bits)))
+        return none()
+
+    @reg(*[t + "::wrapping_add" for t, _ in UTYPES])
+    def m_wrapping_add(it, args, callee):
+        a, b = args[0], args[1]
+        bits = int_bits(callee)
+        if not is_sym(a) and not is_sym(b):
+            return (a + b) & ((1 << bits) - 1)
+        return simp(bv(a, bits) + bv(b, bits))
+
+    @reg(*[t + "::wrapping_mul" for t, _ in UTYPES])
+    def m_wrapping_mul(it, args, callee):
+        a, b = args[0], args[1]
+        bits = int_bits(callee)
+        if not is_sym(a) and not is_sym(b):
+            return (a * b) & ((1 << bits) - 1)
+        return simp(bv(a, bits) * bv(b, bits))
+
+    @reg("Clone::clone_from")
+    def m_clone_from(it, args, callee):
+        src = m_clone(it, [args[1]], "Clone::clone")
+        args[0].set(src)
+        return UNIT
+
     # ----------------------------------------------------------------- Cell
     @reg("Cell::new")
     def m_cell_new(it, args, callee):
